@@ -80,13 +80,18 @@ def run_unit(ctx, unit):
         k = vr.randrange(len(out0))
         cases.append(("write+short", k, core.Case(args, data, wfail=k, wshort=[vr.randint(1, 9) for _ in range(4)],
                                                   wintr=sorted(set(vr.randrange(60) for _ in range(3))))))
+    # a sink that fails once and then takes bytes again (EAGAIN on a full pipe that is drained a moment later): the failed
+    # write still ends the run, and nothing is written behind the gap
+    for _ in range(min(25, len(out0))):
+        k = vr.randrange(len(out0))
+        cases.append(("write-once", k, core.Case(args, data, wfail=k, wonce=True)))
     # disturbances without a fault: same stdout, same result
     cases.append(("benign", -1, core.Case(args, data, rintr=[0, 1, 5, 9], wshort=[1, 3, 2], wintr=[0, 2, 7])))
     if err0:
         for k in range(len(err0)):
             cases.append(("stderr-write", k, core.Case(args, data, efail=k)))
     unit_id = hash(data) & 0xFFFFFFFF
-    if vr.random() < 0.3:
+    if vr.random() < 0.3 or (unit["policy"] == "stdout" and any(unit["gaps"])):
         # the same stream as a file (inside a directory argument, next to a second file): the output of such a run - rows and,
         # under --on-error=stdout, error lines alike - is written to the same stdout, and a failing write ends the run
         fargs = ["@D@/in"] + args
@@ -96,6 +101,7 @@ def run_unit(ctx, unit):
             fout = fbase.stdout
             ks = range(len(fout)) if len(fout) <= 60 else sorted(set(vr.randrange(len(fout)) for _ in range(60)))
             fcases = [("write-dir", k, core.Case(fargs, b"", files=ffiles, wfail=k)) for k in ks]
+            fcases += [("write-dir-once", k, core.Case(fargs, b"", files=ffiles, wfail=k, wonce=True)) for k in ks]
             for c in fcases:
                 c[2].watchdog_ms = 8000
             if _judge(ctx, unit, fargs, data, fbase, streaming, unit_id, fcases, ctx.drv.run_many([c for _, _, c in fcases])):
@@ -169,6 +175,9 @@ def _judge(ctx, unit, args, data, base, streaming, unit_id, cases, obs):
                     return True
             st.count("read_faults")
         elif kind.startswith("write"):
+            if o.o_after_error and kind.endswith("once"):
+                bad("write-after-error", "%d write calls after the failed one (the sink took them: %d bytes behind the gap)" % (o.o_after_error, len(o.stdout) - k))
+                return True
             if o.stdout != out0[:k]:
                 bad("write-prefix", "accepted bytes are not the first %d bytes of the fault-free stdout" % k)
                 return True
